@@ -507,7 +507,15 @@ let () =
         let eofs = List.map (function L (r :: ops) -> (ai r, List.map op_of ops) | _ -> failwith "eofs") (items (List.hd (field "eofs" f))) in
         let sp = { sp_prog = prog;
                    sp_acts = (fun r -> match List.assoc_opt (int_of_n r) acts with Some o -> o | None -> []);
-                   sp_eof = (fun s -> List.assoc_opt (int_of_n s) eofs);
+                   sp_eof = (match field_opt "eofrules" f with
+                       | Some (rl :: _) ->
+                         (* the <<EOF>> rules in source order; the assignment to start conditions is the model's (EofAssign.v) *)
+                         let rules = List.map (function
+                             | L (A "u" :: ops) -> (None, List.map op_of ops)
+                             | L (L scs :: ops) -> (Some (List.map (fun x -> n_of_int (ai x)) scs), List.map op_of ops)
+                             | _ -> failwith "eofrules") (items rl) in
+                         (fun s -> eof_assign rules s)
+                       | _ -> (fun s -> List.assoc_opt (int_of_n s) eofs));
                    sp_lineno = ab (List.hd (field "lineno" f)) } in
         if which = "conserve" then begin
           (* C08_checked_runs_are_instances: do all steps keep yytext defined, and is consumed ++ unread the input? *)
